@@ -49,6 +49,8 @@ def main(tier, seed):
     rep.need("sampled.parts_enumerated", 500, "per-part enumerations")
     rep.need("sampled.k_gt_size", 50, "k larger than the domain")
     rep.need("sampled.alias_variable", 50, "alias variables")
+    rep.need("sampled.history_solved_once", 30, "split after the problem was solved")
+    rep.need("sampled.history_nested", 30, "nested splits")
     rep.assumptions = ["a split into fewer than k parts is accepted when k exceeds the domain size (the statement asks "
                        "for a partition into solvable sub-problems, not for exactly k of them)"]
     return rep.finish()
